@@ -209,6 +209,10 @@ func c02(c *core.Ctx) {
 					if !discarded {
 						return
 					}
+					// writers into memory whose error result is nil by contract (strings.Builder, bytes.Buffer)
+					if ci := core.InfoOf(cc); (ci.Pkg == "strings" && ci.Recv == "Builder") || (ci.Pkg == "bytes" && ci.Recv == "Buffer" && strings.HasPrefix(ci.Name, "Write")) {
+						return
+					}
 					k := pkgS + "|" + calleeRole(p, cc)
 					if pkgS == "." {
 						k = "grpchan|" + calleeRole(p, cc)
@@ -241,7 +245,7 @@ func c02(c *core.Ctx) {
 	}
 
 	// ---------------------------------------------------------------- R7
-	if c.Rule("R7", "what a call returns is what its return statement said: no function of the library that starts a goroutine lets that goroutine store into one of its own result variables — the store can land after the return statement has set the result (while a deferred function runs), turning a failed call into a nil error or one status into another", 2) {
+	if c.Rule("R7", "what a call returns is what its return statement said: no function of the library that starts a goroutine lets that goroutine store into one of its own result variables — the store can land after the return statement has set the result (while a deferred function runs), turning a failed call into a nil error or one status into another", 1) {
 		n := 0
 		for _, pk := range []string{"httpgrpc", "inprocgrpc", "internal", "grpchan"} {
 			for _, fn := range p.LibFuncs(pk) {
@@ -297,8 +301,8 @@ func c02(c *core.Ctx) {
 				}
 			}
 		}
-		if n < 2 {
-			c.Fail("library:goroutine-starting-functions", token.NoPos, "ANCHOR-MISSING: expected functions with results that start goroutines (the unary HTTP call, the in-process call), found %d", n)
+		if n < 1 {
+			c.Fail("library:goroutine-starting-functions", token.NoPos, "ANCHOR-MISSING: expected functions with results that start goroutines (the unary HTTP call), found %d", n)
 		}
 		c.EndRule()
 	}
